@@ -1,5 +1,5 @@
 """One entry per property: which rules run over which configurations."""
-from rules import fd, tls, router, decode, send, mem, recv
+from rules import fd, tls, router, decode, send, mem, recv, rset
 
 LEVEL = {}
 
@@ -326,11 +326,55 @@ def _no_clone_receiver(ctx, cfg, F):
         R.count("receiver_types[%s]" % cfg)
 
 
+LEVEL["C06"] = ("Decides the structural clause of C06 only: ids are handed out and stored from one counter value and reported from the entry of the event's token (SET-ID); "
+                "under edge-triggered polling a member is read until it would block, the member loop is left only on closed / would-block / error (SET-DRAIN) with non-blocking "
+                "reads (SET-NONBLOCK); a closed member is removed, deregistered, closed and reported on every path (SET-CLOSE, with FD-CLOSE-OWNED of C11); an interrupted wait "
+                "is retried (SET-EINTR); add consumes the receiver by value. Not decided: exactly-once and per-member order as observed; more ready members than the event buffer.")
+
+
+def check_C06(ctx):
+    for cfg, F in ctx.configs(["K1"]):
+        rset.rule_set_id(ctx, cfg, F, "unix")
+        ctx.rule("SET-ID").floor("next_sites[%s]" % cfg, 1, cfg)
+        ctx.rule("SET-ID").floor("event_ids[%s]" % cfg, 2, cfg)
+        rset.rule_set_unix(ctx, cfg, F)
+        ctx.rule("SET-DRAIN").floor("member_reads[%s]" % cfg, 1, cfg)
+        ctx.rule("SET-CLOSE").floor("closed_paths[%s]" % cfg, 1, cfg)
+        ctx.rule("SET-EINTR").floor("poll_sites[%s]" % cfg, 1, cfg)
+        model = fd.build_model(F)
+        fd.rule_close_owned(ctx, cfg, F, model)
+        _add_by_value(ctx, cfg, F)
+    for cfg, F in ctx.configs(["K3"]):
+        rset.rule_set_id(ctx, cfg, F, "inprocess")
+        ctx.rule("SET-ID").floor("next_sites[%s]" % cfg, 1, cfg)
+        ctx.rule("SET-ID").floor("event_ids[%s]" % cfg, 2, cfg)
+        _add_by_value(ctx, cfg, F)
+    ctx.assume("mio registers SourceFd edge-triggered; epoll keeps unreturned ready entries queued; crossbeam Select is fair")
+
+
+def _add_by_value(ctx, cfg, F):
+    R = ctx.rule("SET-OWNS", "IpcReceiverSet::add / add_opaque and the platform add take the receiver by value: the set is the exclusive consumer")
+    n = 0
+    for f in F.fns.values():
+        if f.kind == "Closure":
+            continue
+        if f.path.endswith("ReceiverSet::add") or f.path.endswith("ReceiverSet::add_opaque"):
+            n += 1
+            t = f.local_ty(2)
+            if t.startswith("&"):
+                R.violate("%s:receiver-by-reference" % f.path, "%s takes the receiver by reference (%s)" % (f.path, t), f.path, f.loc(0), config=cfg)
+            else:
+                R.ok("%s(%s) by value" % (f.path, t), f.loc(0), cfg)
+    R.count("add_fns[%s]" % cfg, n)
+
+
 # --------------------------------------------------------------------------- registry metadata
 NOT_APPLICABLE = {}
 WITNESS_PROPS = []
 _TECH = "static analysis over rustc MIR facts: "
 META = {
+    "C06": {"technique": _TECH + "path-sensitive exploration of the per-member read loop with accumulated result/closed/would-block facts; provenance of ids",
+            "note": "trusted: mio edge-triggered registration, epoll queueing, crossbeam Select; schedules are not explored"},
     "C09": {"technique": _TECH + "result-sign path summaries of the transmitters; pending-error exploration of the platform send",
             "note": "trusted: kernel reports a vanished peer as an error; SIGPIPE not raised on SEQPACKET (experiment)"},
     "C13": {"technique": _TECH + "pending-error exploration of the fragment loop (retry guard, position discipline), shape check of downsize, interval bound on descriptors",
